@@ -209,8 +209,9 @@ def write_op(r, m, q, a, newid):
     return [s, q[0], q[1], a]
 
 
-def complete(r, mir, kinds, newid, keep=()):
-    """Completion step: operations that turn the current mapping into a complete valid one."""
+def complete(r, mir, kinds, newid, plain=False):
+    """Completion step: operations that turn the current mapping into a complete valid one.
+    plain: only whole signals and bundle instances, assigned (corpus witnesses stay free of everything else)."""
     ops = []
     for _ in range(60):
         bad = [q for q in invalid_ports(mir.m, kinds)]
@@ -224,7 +225,11 @@ def complete(r, mir, kinds, newid, keep=()):
             a = r.choice(cands)
             if q[1] == BP and r.random() < 0.15:
                 a = ["dictreq", r.choice(list(DICTS))]
-            op = write_op(r, mir.m, q, a, newid)
+            if plain:
+                a = ["obj", 40 + q[0] % 2] if q[1] == BP else ["obj", q[0] % 2]
+                op = ["set", q[0], q[1], a]
+            else:
+                op = write_op(r, mir.m, q, a, newid)
         ops.append(op)
         mir.apply(op)
     raise RuntimeError("completion did not converge")
@@ -431,11 +436,11 @@ def rand_history(r, kinds, n, newid, mir=None, avoid=(), bad_p=0.03, insts=None)
     return ops, mir
 
 
-def finish(r, kinds, ops, newid):
+def finish(r, kinds, ops, newid, plain=False):
     mir = Mirror()
     for e in expand(ops):
         mir.apply(e)
-    return ops + complete(r, mir, kinds, newid)
+    return ops + complete(r, mir, kinds, newid, plain=plain)
 
 
 TKINDS = [0, 0, -1, -2]
@@ -490,7 +495,7 @@ def corpus_jobs():
     hs.append((TKINDS, [["set", 2, BP, ["ref", 0, BP]], ["set", 2, A, ["obj", 30]], ["toarray", 2, 3], ["set", 3, A, ["obj", 2]],
                         ["set", 0, BP, ["ref", 1, BP]], ["set", 1, BP, ["ref", 0, BP]]]))
     for kinds, ops in hs:
-        out.append(mk_job(kinds, finish(r, kinds, ops, IdGen())))
+        out.append(mk_job(kinds, finish(r, kinds, ops, IdGen(), plain=True)))
     return out
 
 
@@ -671,6 +676,12 @@ def report(run, stream, jobs, outs, res, any_code1):
         _, i, st = lst[0]
         job = jobs[i]
         if c in (1, 6):
+            if 0 <= st < len(job["ops"]):      # failure at an operation: the history up to it, not completed, not exported
+                pres = [mk_job(job["kinds"], job["user_ops"][:k], export=False) for k in range(1, len(job["user_ops"]) + 1)]
+                _, pres_res = evaluate("prefix", pres)
+                hit = [k for k, (cc, _) in sorted(pres_res.items()) if cc == c]
+                if hit:
+                    job = pres[hit[0]]
             small = shrink(job, c)
             souts, sres = evaluate("final", [small])
             if 0 in sres and sres[0][0] == c:
